@@ -175,30 +175,22 @@ fn is_text_shaped(expr: &Expression) -> bool {
     }
 }
 
-/// Write sibling nodes. Text nodes that are only separated by comments (which are not printed)
-/// become adjacent in the output: a static text ending in `{` must then not join a `{` after it.
+/// Write sibling nodes. Comments are not printed, so two text nodes that only a comment kept
+/// apart would be printed as one text (and re-parse as one); an empty comment keeps them apart.
 fn stringify_children<'s, W: FmtWrite>(
     children: &[Node],
     stringifier: &mut Stringifier<'s, W>,
 ) -> FmtResult {
     for (i, child) in children.iter().enumerate() {
+        child.stringify_write(stringifier)?;
         if let Node::Text(..) = child {
             let next_printed = children[i + 1..]
                 .iter()
                 .find(|x| !matches!(x, Node::Comment(..)));
-            stringifier.followed_by_brace = match next_printed {
-                Some(Node::Text(Value::Static { value, .. })) => value.starts_with('{'),
-                Some(Node::Text(Value::Dynamic { expression, .. })) => {
-                    text_starts_with_brace(expression)
-                }
-                _ => false,
-            };
-            let ret = child.stringify_write(stringifier);
-            stringifier.followed_by_brace = false;
-            ret?;
-            continue;
+            if let Some(Node::Text(..)) = next_printed {
+                stringifier.write_str("<!---->")?;
+            }
         }
-        child.stringify_write(stringifier)?;
     }
     Ok(())
 }
@@ -760,14 +752,9 @@ impl Stringify for Element {
 
 impl Stringify for Value {
     fn stringify_write<'s, W: FmtWrite>(&self, stringifier: &mut Stringifier<'s, W>) -> FmtResult {
-        let followed_by_brace = stringifier.followed_by_brace;
         match self {
             Self::Static { value, location } => {
-                let quoted = if followed_by_brace {
-                    escape_html_body_before_binding(&value)
-                } else {
-                    escape_html_body(&value)
-                };
+                let quoted = escape_html_body(&value);
                 stringifier.write_token(&format!("{}", quoted), None, &location)?;
             }
             Self::Dynamic {
@@ -828,13 +815,12 @@ impl Stringify for Value {
                     stringifier.write_token("}}", None, &end_location)?;
                     Ok(())
                 }
-                stringifier.followed_by_brace = false;
                 split_expression(
                     &expression,
                     stringifier,
                     &double_brace_location.0,
                     &double_brace_location.1,
-                    followed_by_brace,
+                    false,
                 )?;
             }
         }
